@@ -254,6 +254,7 @@ impl Check for UdpDemux {
             m = m.with(UdpSender { sends: sends.iter().filter(|s| s.m == mi).map(|s| s.send.clone()).collect(), results: send_results.clone(), wire: wire.clone() });
             machines.push(m.arc());
         }
+        let _release = ReleaseOnDrop(machines.clone());
         let (_status, panics): (Option<_>, _) = run_virtual(async { run_internet_with_timeout(&machines, Duration::from_secs(10)).await });
         panics_to_failure(&panics)?;
 
